@@ -147,6 +147,8 @@ FIXED = [
     'cmd a "";\n',
     'cmd {{{ }}} | x;\n',
     'cmd <U>;\n',
+    'cmd (a x || a y);\n',
+    'cmd ({{{ echo c }}} x || {{{ echo c }}} y);\n',
     'cmd a;\n',
     'cmd [--x=(1|2)]... <DIRECTORY>;\n',
 ]
@@ -230,6 +232,81 @@ def fix_unreferenced(dfa_text):
     return dfa_text.replace('(unreferenced)', '(dfa (start 0) (trans) (acc) (inputs) (subdfas))')
 
 
+def shared_compadd_gap(d, shell, stmts):
+    """zsh: two within-word automata that share a shape function although their completion-side compadd
+    relations differ (isomorphic_to ignores them)"""
+    if shell != 'zsh':
+        return False
+    funcs, order, reg = emitlib.split_functions(shell, stmts)
+    groups = {}
+    for name in order:
+        for st in funcs[name]:
+            if st[0] == 'call' and '_subword_shape_' in str(st[1]):
+                groups.setdefault(str(st[1]), []).append(name)
+    def compadd_comp(sd):
+        return frozenset((x[2], s, x[1]) for s, i, to in sd['trans'] for x in [sd['inputs'][i]] if x[0] == 'compadd')
+    # script ids of sub-words are 1-based first-occurrence ranks over the main transitions
+    ids = {}
+    for s, i, to in d['trans']:
+        x = d['inputs'][i]
+        if x[0] == 'sub' and x[1] not in ids:
+            ids[x[1]] = 1 + len(ids)
+    by_name = {'_cmd_subword_%d' % w: d['subs'][pi] for pi, w in ids.items()}
+    for g in groups.values():
+        cs = {compadd_comp(by_name[n]) for n in g if n in by_name}
+        if len(cs) > 1:
+            return True
+    return False
+
+
+def judge(sh, st, read_out):
+    """-> None when the script embeds the automaton, else (why, known-finding class or None)"""
+    if read_out is None:
+        return ('no script', None)
+    stmts = sexp.parse(read_out)
+    d = emitlib.parse_dfa(sexp.parse(fix_unreferenced(st['MIN'][4:-1])))
+    with_descr = sh != 'bash'
+    want = emitlib.canon_expected(d, d['subs'], sh, with_descr)
+    cls = None
+    if emitlib.key_clash(d):
+        cls = 'same_text_two_levels'
+    elif shared_compadd_gap(d, sh, stmts):
+        cls = 'zsh_compadd_shape_sharing'
+    try:
+        got = emitlib.embedded(sh, stmts, 'cmd', with_descr)
+    except emitlib.ReadError as e:
+        return ('the data of the script cannot be read: %s' % e, cls)
+    if got['main'][0] != want[0]:
+        return ('start state: script says %r, automaton says %d' % (got['main'][0], want[0]), cls)
+    if got['main'][1] != want[1]:
+        a, b = got['main'][1], want[1]
+        return ('next-state data differs: only in script %s; only in automaton %s'
+                % (short(a - b), short(b - a)), cls)
+    if got['main'][2] != want[2]:
+        a, b = got['main'][2], want[2]
+        return ('candidates per state and level differ: only in script %s; only in automaton %s'
+                % (short(a - b), short(b - a)), cls)
+    # the literal list: every literal of a transition is listed, nothing foreign is listed
+    pool = set((x[1], x[2]) if with_descr else (x[1],) for x in d['inputs'] if x[0] == 'lit')
+    B = ARRAY_START[sh]
+    listed = [((t, got['descr'].get(k + B, '')) if with_descr else (t,)) for k, t in enumerate(got['literals'])]
+    if set(listed) != pool:
+        return ('literal list differs from the automaton\'s literals: %r vs %r' % (sorted(listed)[:6], sorted(pool)[:6]), cls)
+    regs = got['registered']
+    okreg = {'bash': [['_cmd', 'cmd']], 'fish': [['_cmd', 'cmd']], 'zsh': [['cmd'], ['_cmd', 'cmd']], 'pwsh': [['cmd']]}[sh]
+    if regs != okreg:
+        return ('registration: %r' % regs, None)
+    maxl = max([k for k, _, _ in want[2]] + [0])
+    if got['maxlevel'] is not None and got['maxlevel'] < maxl:
+        return ('max_fallback_level %d below the highest level %d' % (got['maxlevel'], maxl), cls)
+    return None
+
+
+def short(xs, n=3):
+    xs = sorted(xs, key=repr)
+    return '[' + '; '.join(repr(x)[:160] for x in xs[:n]) + (' ...]' if len(xs) > n else ']')
+
+
 def run(ctx, res):
     with build.Lock():
         exe = build.harness()
@@ -251,8 +328,11 @@ def run(ctx, res):
             om, osub = literal_orders(tabs)
             reqs.append('tables %s %s %s %s' % (sh, fix_unreferenced(st['MIN'][4:-1]), sexp.dump(om), sexp.dump(osub)))
             keys.append((i, sh))
+            text = emitlib.script_of(st.get('SCRIPT'))
+            if text is not None:
+                reqs.append('readscript %s %s' % (sh, sexp.quote(text)))
+                keys.append((i, sh, 'read'))
             if sh == 'bash':
-                text = emitlib.script_of(st.get('SCRIPT'))
                 if text is not None:
                     first = text.split('\n', 1)[0]
                     reqs.append('emitbash "cmd" %s %s %s %s %s' % (sexp.quote(first[2:]), fix_unreferenced(st['MIN'][4:-1]),
@@ -303,6 +383,16 @@ def run(ctx, res):
                     continue
                 script_ties += 1
             res.traces_validated += 1
+            # ---- direct judgement: what the script embeds (read by the extracted Spec.ScriptRead with the shell's
+            # own quoting rules and index base) against the automaton of Rust's MIN dump
+            verdict = judge(sh, st, by.get((i, sh, 'read')))
+            if verdict is not None:
+                why, cls = verdict
+                res.violations.append(report.Violation('C04: ' + why, dict(replay, kind='spec-judgement', why=why,
+                                                                          script=(emitlib.script_of(st.get('SCRIPT')) or '')[:6000]), cls=cls))
+            elif len(res.samples) < 6 and (i * 7 + SHELLS.index(sh)) % 11 == 0 and len(field(rust, 'subwords')) > 1:
+                res.samples.append(dict(grammar=texts[i].decode('latin-1')[:300], shell=sh,
+                                        read_statements=(by.get((i, sh, 'read')) or '')[:400]))
             if len(field(rust, 'subwords')) > 1 or len(field(rust, 'commands')) > 1:
                 nontrivial.add((i, sh))
     res.nontrivial = len(nontrivial)
